@@ -176,7 +176,10 @@ Theorem C06_set_accepted :
     match reqs with
     | [] => ns = nps
     | _ :: _ => ns = req_pnode reqs :: nps
-    end.
+    end /\
+    wf_tops gen_tables (loaded_after reqs) (prev_after reqs)
+      (map (fun x : sfilter => (sf_cms name_pre desc_pre x, sf_g x)) sfs) nps
+      (loaded_after reqs).
 Proof. exact BuildSet.factory_set_accepted. Qed.
 Print Assumptions C06_set_accepted.
 
